@@ -14,12 +14,13 @@ RULE = ("one case = one imager configuration (ranges that do / do not divide by 
         "isotropic, axis-aligned, correlated with r in +-{0.2,0.5,0.74,0.76,0.9,0.93,0.99}, uniform box, a user logistic kernel; "
         "variances 1e-4..1e2 in absolute and pixel units; weight: persistence n in {0.5,1,2,3}, linear_ramp, user callables incl. a "
         "signed one) and one diagram of 0-8 points inside / on pixel borders / on the region border / outside the region, given in "
-        "birth-death (skew=True) or birth-persistence (skew=False) form, float or int; half of the cases go on to evaluate sibling configurations (same resolution and origin with another pixel size; same geometry with another kernel parameter) in the same process and then the original again. non-trivial = >=2 points, >=2x2 pixels and "
+        "birth-death (skew=True) or birth-persistence (skew=False) form, float or int; one case in 53 is of realistic size instead (2000-9000 pairs, 30..160 pixels per side, axis-factoring kernels, vectorised oracle); half of the cases go on to evaluate sibling configurations (same resolution and origin with another pixel size; same geometry with another kernel parameter) in the same process and then the original again. non-trivial = >=2 points, >=2x2 pixels and "
         "some pixel receiving mass >1e-6 from two different points; distinct = digest of (configuration, diagram)")
 ASSUMPTIONS = ["pixel (i,j) = [b0+i*ps, b0+(i+1)*ps] x [p0+j*ps, p0+(j+1)*ps] from the public birth_range, pers_range, pixel_size",
                "mass by direct integration of the density: exact overlap (uniform), product of 1-D normal masses (axis-aligned), "
                "quad over the birth side of phi(x)*[conditional normal mass] (correlated, epsabs 1e-13); never bivariate-CDF inclusion-exclusion",
                "tolerance 1e-7*sum|w| (numerical-integration accuracy named by the statement)"]
+REQUIRED_NOTES = ["large-cases"]
 TECHNIQUE = "runtime monitoring: postcondition monitor on PersistenceImager.transform with a direct-integration pixel-mass oracle"
 
 
@@ -41,7 +42,43 @@ def kernel_class(kd):
     return KINDS[0] if cov[0][0] == cov[1][1] else KINDS[1]
 
 
+def large_case(ctx, k, rng):
+    """thousands of pairs on a fine grid: whatever the implementation does differently at that size (blocks, tables, chunks) must
+    still produce the weighted pixel masses"""
+    geom, kkw, kdesc, wkw, wfun, bp = imgcfg.gen_large(rng)
+    kcls = kernel_class(kdesc)
+    ctx.begin(k, "large/" + kcls, {"ctor": {**geom, "kernel": kdesc, "weight": {a: (b if not callable(b) else b.__name__) for a, b in wkw.items()}},
+                                   "n_pairs": len(bp), "first_pairs": bp[:5]})
+    ctx.note("large-cases")
+    try:
+        ctx.ran(2)
+        P = Imager(**geom, **kkw, **wkw)
+        skew = bool(rng.integers(0, 2))
+        dgm = np.column_stack([bp[:, 0], bp[:, 0] + bp[:, 1]]) if skew else bp
+        if skew:
+            bp = np.column_stack([dgm[:, 0], dgm[:, 1] - dgm[:, 0]])
+        img = np.asarray(P.transform(dgm, skew=skew))
+    except Exception as e:
+        ctx.exception("transform returns", e)
+        return
+    nb, npx = (int(x) for x in P.resolution)
+    if not ctx.check("image shape == resolution", img.shape == (nb, npx), shape=img.shape, resolution=[nb, npx]):
+        return
+    w = np.asarray(wfun(bp[:, 0], bp[:, 1]), float)
+    g = {"b0": P.birth_range[0], "p0": P.pers_range[0], "ps": P.pixel_size, "nb": nb, "np": npx}
+    want = OI.expected_image_separable(bp, w, kdesc, g)
+    tol = 1e-7 * max(float(np.sum(np.abs(w))), 1e-300)
+    err = np.abs(img - want)
+    i, j = np.unravel_index(int(np.argmax(err)), err.shape)
+    ctx.check("pixel == sum weight*mass [%s]" % kcls, bool(np.all(np.isfinite(img))) and float(err.max()) <= tol, worst=float(err.max()),
+              tol=tol, pixel=[int(i), int(j)], got=float(img[i, j]), want=float(want[i, j]), n_pairs=len(bp), total_got=float(img.sum()),
+              total_want=float(want.sum()))
+    ctx.mark_nontrivial(geom, kdesc, len(bp), float(bp.sum()))
+
+
 def run_case(ctx, k, rng):
+    if k % 53 == 9:
+        return large_case(ctx, k, rng)
     geom = imgcfg.gen_geometry(rng)
     kkw, kdesc = imgcfg.gen_kernel(rng, geom["pixel_size"])
     wkw, wfun, nonneg = imgcfg.gen_weight(rng)
